@@ -242,7 +242,43 @@ def via_prim(x: fp.Real) -> tuple[fp.Real, fp.Real]:
     return (b, c)
 
 
+def _make_scale(k):
+    @fp.fpy
+    def scale_by(x: fp.Real) -> fp.Real:
+        with fp.FP32:
+            return x * k
+    return scale_by
+
+
+scale3 = _make_scale(3)      # a callee living in another scope: it captures `k` in a closure cell
+
+
+@fp.fpy
+def uses_closure(x: fp.Real) -> fp.Real:
+    with RTZ16:
+        y = scale3(x) + 1
+    return y
+
+
+gain = 2.0
+
+
+@fp.fpy
+def boosted(x: fp.Real) -> fp.Real:
+    return x * gain
+
+
+@fp.fpy
+def shadowing(x: fp.Real, gain: fp.Real) -> fp.Real:
+    # the parameter shadows the module constant the callee reads
+    with fp.FP32:
+        return boosted(x) + gain
+
+
 SIG = {
+    'uses_closure': ['num'],
+    'boosted': ['num'],
+    'shadowing': ['num', 'num'],
     'nested': ['num', 'nz'],
     'early': ['pos'],
     'calls': ['num'],
@@ -272,6 +308,8 @@ SIG = {
 
 # strategies that may be applied to each function (name -> list of (strategy, kwargs))
 DERIVABLE = {
+    'uses_closure': [('inline', {}), ('simplify', {})],
+    'shadowing': [('inline', {}), ('close', {}), ('simplify', {})],
     'alt_loop': [('unroll_while', {'times': 1}), ('unroll_while', {'times': 2}), ('simplify', {})],
     'calls': [('inline', {}), ('simplify', {})],
     'share_call': [('inline', {})],
